@@ -148,6 +148,24 @@ var watchdog struct {
 	seed     uint64
 	out      *os.File
 	worker   int
+
+	// hang detection: the run's Ctx.Event calls beat; a run that makes no
+	// progress for rig.HangTimeout is handed, with a dump of all goroutine
+	// stacks, to rig.OnHang, which may classify it as a violation of the
+	// property (e.g. a lock leaked by the code under test) instead of harness
+	// trouble
+	lastBeat time.Time
+	rig      *Rig
+	tier     Tier
+	tape     *Tape
+	replay   string // replay mode: path of the replay file being replayed
+}
+
+// beat records progress of the current run.
+func beat() {
+	watchdog.Lock()
+	watchdog.lastBeat = time.Now()
+	watchdog.Unlock()
 }
 
 func startWatchdog() {
@@ -156,7 +174,33 @@ func startWatchdog() {
 			time.Sleep(500 * time.Millisecond)
 			watchdog.Lock()
 			dl, seed, out, w := watchdog.deadline, watchdog.seed, watchdog.out, watchdog.worker
+			rig, lastBeat, tape, tier, replay := watchdog.rig, watchdog.lastBeat, watchdog.tape, watchdog.tier, watchdog.replay
 			watchdog.Unlock()
+			if !dl.IsZero() && rig != nil && rig.OnHang != nil && rig.HangTimeout > 0 && !lastBeat.IsZero() && time.Since(lastBeat) > rig.HangTimeout {
+				buf := make([]byte, 4<<20)
+				n := runtime.Stack(buf, true)
+				if v := rig.OnHang(string(buf[:n])); v != nil {
+					if replay != "" {
+						fmt.Printf("REPRODUCED class=%s key=%s\n  %s\nVIOLATION property=%s replay=%s\n", v.Class, v.Key, v.Message, rig.Property, replay)
+						os.Exit(1)
+					}
+					if tape != nil && out != nil {
+						rf := &ReplayFile{Property: rig.Property, Rig: rig.Name, Tier: tier, Seed: seed, Tape: tape.Streams(), Violation: v, Shrunk: false}
+						path := filepath.Join(outRoot(), "replays", fmt.Sprintf("%s-%d.json", rig.Property, seed))
+						os.MkdirAll(filepath.Dir(path), 0755)
+						b, _ := json.MarshalIndent(rf, "", " ")
+						os.WriteFile(path, b, 0644)
+						lb, _ := json.Marshal(workerLine{Kind: "violation", Worker: w, Res: &Result{Seed: seed, Violations: []*Violation{v}}, Replay: path})
+						out.Write(append(lb, '\n'))
+						db, _ := json.Marshal(workerLine{Kind: "done", Worker: w, Msg: "0"})
+						out.Write(append(db, '\n'))
+						if sp := os.Getenv("VERIF_STOP"); sp != "" {
+							os.WriteFile(sp, []byte("stop"), 0644)
+						}
+						os.Exit(0)
+					}
+				}
+			}
 			if !dl.IsZero() && time.Now().After(dl) {
 				if out != nil {
 					b, _ := json.Marshal(workerLine{Kind: "harness", Worker: w, Msg: fmt.Sprintf("watchdog: run seed=%d exceeded its wall-clock limit", seed)})
@@ -175,6 +219,13 @@ func arm(seed uint64, d time.Duration) {
 	watchdog.Lock()
 	watchdog.deadline = time.Now().Add(d)
 	watchdog.seed = seed
+	watchdog.lastBeat = time.Now()
+	watchdog.Unlock()
+}
+
+func armRun(rig *Rig, tier Tier, tape *Tape, replay string) {
+	watchdog.Lock()
+	watchdog.rig, watchdog.tier, watchdog.tape, watchdog.replay = rig, tier, tape, replay
 	watchdog.Unlock()
 }
 
@@ -238,9 +289,11 @@ func workerMain(t *testing.T, prop string) {
 		}
 		seed := RunSeed(base, k)
 		tape := NewTape(seed)
+		armRun(rig, tier, tape, "")
 		arm(seed, runTimeout)
 		res := Execute(t, rig, tier, tape, known)
 		disarm()
+		armRun(nil, tier, nil, "")
 		done++
 		next = k + W
 		if res.Harness != "" {
@@ -318,6 +371,7 @@ func replayMain(t *testing.T, prop string) {
 		delete(known, rf.Violation.Key)
 	}
 	startWatchdog()
+	armRun(rig, rf.Tier, nil, path)
 	arm(rf.Seed, 10*time.Minute)
 	res := Execute(t, rig, rf.Tier, ReplayTape(rf.Seed, rf.Tape), known)
 	disarm()
